@@ -198,7 +198,7 @@ def install(ctx, repo, probes):
 
 def run_case(ctx, repo, case):
     mode = case["mode"]
-    repo.set_mode(mode)
+    repo.set_mode(mode, case)
     try:
         pts = [repo.tp(kw) for kw in case["points"]]
         ctx.cls("cluster/%s" % mode)
@@ -345,7 +345,13 @@ def boundary_clusters(rng, mode, years):
                        "second_of_minute": 0})
             kw.update(gen.zone_kwargs((1, 0)))
             pts.append(kw)
-            yield {"op": "cluster", "mode": mode, "points": pts}
+            if mode == "gregorian":
+                yield {"op": "cluster", "mode": mode, "points": pts}
+            else:
+                # once under each spelling of the mode's name
+                for alias in (False, True):
+                    yield {"op": "cluster", "mode": mode, "points": pts,
+                           "alias": alias}
 
 
 def workload(ctx, repo):
